@@ -89,7 +89,7 @@ def plain(tree):
 def build(tree, placement=None, ntables=1, table_order="fwd", free_at=None, seqs=(7, 6), stale=None, table_seq=5,
           second_object_table=False, fileobj_threshold=0x800, version=0x400, slack=4, stale_tree=None,
           stale_positions=None, fileobj_base=0x40000, fileobj_gap=0, as_image=False, extra_flags=0, object_table_chain=0,
-          chain_shape="chain", extra_replay_log=False, holes=0, free_size=32):
+          chain_shape="chain", extra_replay_log=False, holes=0, free_size=32, free_only_tables=()):
     """placement: list (per preorder entry) of table index 1..ntables (default round-robin).
     table_order: 'fwd' | 'rev' order of the entries inside each table (rev puts children before parents).
     free_at: set of global positions before which a Free entry is inserted.
@@ -172,6 +172,10 @@ def build(tree, placement=None, ntables=1, table_order="fwd", free_at=None, seqs
     # two passes so that parent offsets (possibly later in the table) are known
     layout(None)
     active = layout(None)
+    for t in free_only_tables:
+        # the current copy of this table holds nothing but one Free entry (all its keys were deleted)
+        n_ = max(32, len(active[t]))
+        active[t] = struct.pack(ENT, T_FREE, n_, 0, 0, 0, 0, 0).ljust(n_, b"\xEE")
     img = bytearray(0x40000)
     h1, h2 = header(seqs[0], 0x8000, version), header(seqs[1], 0x8000, version)
     img[0:len(h1)] = h1
